@@ -13,7 +13,7 @@ from decimal import Decimal
 from fractions import Fraction
 import ciw
 from .. import gen, runner
-from .common import CapSim, guarded, Summary, all_individuals
+from .common import reaches_open_finding, CapSim, guarded, Summary, all_individuals
 
 INF = float('inf')
 BUDGET = {'quick': 360, 'thorough': 8000}
@@ -144,6 +144,10 @@ def worker(job, extra):
     k = random.Random(seed).choice([12, 14, 20, 26])
     res['sig'] = repr(('float_vs_exact', k, gen.topo_signature(spec), sorted(gen.features(spec))))
 
+    k_ = reaches_open_finding(spec)
+    if k_:
+        res['status'] = 'skipped_reaches_' + k_; return res
+
     def run(exact):
         def f():
             N, skw = gen.build(spec); ciw.seed(seed)
@@ -160,8 +164,18 @@ def worker(job, extra):
     if sa != 'ok' or sb != 'ok':
         if res['viol']: res['spec'] = spec
         return res
-    if A._ties > 0:
+    if A._ties > 0 or B._ties > 0:
         res['status'] = 'tie_skipped'; return res
+    # mathematically coincident events coincide in exact mode only (that is the point of exact mode) and then consume a tie-break
+    # random number the float run does not: any two records of the exact run ending at exactly the same instant at one node
+    # (e.g. batch-mates with equal service times) make the pair non-tie-free
+    seen_ = set()
+    for i_ in all_individuals(B):
+        for r_ in i_.data_records:
+            key_ = (r_.node, r_.exit_date)
+            if key_ in seen_:
+                res['status'] = 'tie_skipped'; return res
+            seen_.add(key_)
     ra = sorted([r for i in all_individuals(A) for r in i.data_records], key=lambda r: (r.id_number, float(r.arrival_date), r.record_type))
     rb = sorted([r for i in all_individuals(B) for r in i.data_records], key=lambda r: (r.id_number, float(r.arrival_date), r.record_type))
     # an event that falls on the horizon in one arithmetic and a hair before it in the other is executed in one run only:
